@@ -1,4 +1,882 @@
+//! C20 – the chain-sync client keeps listeners on one consistent chain at the best tip.
+//!
+//! Bounded exhaustive enumeration of block trees x tip sequences x listener positions x source
+//! faults against the real `lightning_block_sync::{SpvClient, poll::ChainPoller,
+//! init::synchronize_listeners}`; a recording `chain::Listen` is replayed against the tree.
+mod run;
+mod source;
+mod tree;
+
+use mc_common::cli::{self, Tier};
+use mc_common::evidence::{Evidence, Level};
+use mc_common::findings::{self, Violation};
+use mc_common::{json, par, Value};
+use run::{execute, Flags, Kind, RunOut, Scenario};
+use source::{Fault, FaultClass, Req, SrcMode, ALL_CLASSES, REQ_BLOCK, REQ_HEADER};
+use std::collections::{BTreeMap, HashSet};
+use std::sync::Arc;
+use std::time::{Duration, Instant};
+use tree::{rooted_trees, Tree, TreeSpec};
+
+const PROP: &str = "C20";
+const LIMIT: usize = lightning_block_sync::HEADER_CACHE_LIMIT as usize;
+
+#[derive(Clone, Copy, PartialEq, Eq, Debug)]
+enum Positions {
+	/// A fault at every request of the scripted steps.
+	All,
+	/// Long parametric runs in the quick tier: requests near step/phase boundaries and every
+	/// request that reveals a header-cache miss.
+	Sparse,
+}
+
+#[derive(Clone, Debug)]
+enum Gen {
+	/// All tip sequences of length 1..=t for one (tree, mode, via_init, start).
+	SpvTips { t: usize },
+	/// Fixed tip list.
+	SpvFixed { tips: Vec<usize> },
+	/// Start-up sync: second listener and best tip range over all nodes.
+	InitAll,
+	/// Start-up sync on fixed candidates: second listener over `others`, best tip fixed.
+	InitFixed { others: Vec<usize>, best: usize },
+}
+
+#[derive(Clone, Debug)]
+struct Item {
+	family: &'static str,
+	tree: TreeSpec,
+	kind: Kind,
+	mainnet: bool,
+	mode: SrcMode,
+	via_init: bool,
+	start: usize,
+	locator_prev: bool,
+	forget_stale: bool,
+	gen: Gen,
+	faults: bool,
+	pairs: bool,
+	/// Also inject height / chainwork lies (outside the property's fault list; `--opt lies=1`).
+	lies: bool,
+	positions: Positions,
+}
+
+#[derive(Default)]
+struct Acc {
+	runs: u64,
+	base_runs: u64,
+	fault_runs: u64,
+	pair_runs: u64,
+	steps: u64,
+	notifications: u64,
+	requests: u64,
+	fired: [u64; 17],
+	refused: [u64; 17],
+	flags: BTreeMap<&'static str, u64>,
+	states: HashSet<u128>,
+	per_family: BTreeMap<String, u64>,
+	groups: BTreeMap<String, ((usize, usize, usize, String), Scenario, run::Failure, u64)>,
+	violating_runs: u64,
+	evict: BTreeMap<usize, (u64, u64)>, // fork depth -> (base runs, main-chain header requests in the reorg poll)
+	batch_multi: u64,
+	incomplete_items: u64,
+	samples: Vec<Value>,
+}
+
+impl Acc {
+	fn flag(&mut self, k: &'static str, v: bool) {
+		if v {
+			*self.flags.entry(k).or_insert(0) += 1;
+		}
+	}
+	fn absorb_flags(&mut self, f: &Flags) {
+		self.flag("reorg", f.reorg);
+		self.flag("tie", f.tie);
+		self.flag("worse", f.worse);
+		self.flag("extend", f.extend);
+		self.flag("common", f.common);
+		self.flag("lower_height_reorg", f.lower_height_reorg);
+		self.flag("ok_but_short", f.ok_but_short);
+		self.flag("faulted_poll_err", f.faulted_poll_err);
+		self.flag("left_at_fork_point", f.left_at_fork_point);
+		self.flag("init_ok", f.init_ok);
+		self.flag("init_disconnect", f.init_disconnect);
+		self.flag("init_fallback", f.init_fallback);
+		self.flag("init_unresolvable", f.init_unresolvable);
+		self.flag("init_distinct_forks", f.init_distinct_forks);
+		self.flag("init_down_sync", f.init_down_sync);
+		self.flag("fault_harmless", f.fault_harmless);
+	}
+	fn merge(&mut self, o: Acc) {
+		self.runs += o.runs;
+		self.base_runs += o.base_runs;
+		self.fault_runs += o.fault_runs;
+		self.pair_runs += o.pair_runs;
+		self.steps += o.steps;
+		self.notifications += o.notifications;
+		self.requests += o.requests;
+		for i in 0..17 {
+			self.fired[i] += o.fired[i];
+			self.refused[i] += o.refused[i];
+		}
+		for (k, v) in o.flags {
+			*self.flags.entry(k).or_insert(0) += v;
+		}
+		self.states.extend(o.states);
+		for (k, v) in o.per_family {
+			*self.per_family.entry(k).or_insert(0) += v;
+		}
+		for (k, v) in o.groups {
+			self.add_group(k, v);
+		}
+		self.violating_runs += o.violating_runs;
+		for (k, v) in o.evict {
+			let e = self.evict.entry(k).or_insert((0, 0));
+			e.0 += v.0;
+			e.1 += v.1;
+		}
+		self.batch_multi += o.batch_multi;
+		self.incomplete_items += o.incomplete_items;
+		for s in o.samples {
+			if self.samples.len() < 12 {
+				self.samples.push(s);
+			}
+		}
+	}
+	fn add_group(&mut self, k: String, v: ((usize, usize, usize, String), Scenario, run::Failure, u64)) {
+		match self.groups.get_mut(&k) {
+			None => {
+				self.groups.insert(k, v);
+			},
+			Some(cur) => {
+				cur.3 += v.3;
+				if v.0 < cur.0 {
+					cur.0 = v.0;
+					cur.1 = v.1;
+					cur.2 = v.2;
+				}
+			},
+		}
+	}
+}
+
+fn guarded_execute(scn: &Scenario, tree: &Arc<Tree>, verbose: bool) -> Result<RunOut, String> {
+	par::guarded(|| execute(scn, tree, verbose))
+}
+
+/// Group key and `stage|oracle` of a failing execution.
+#[derive(Clone)]
+struct FailSig {
+	key: String,
+	what: String,
+}
+
+/// Runs one scenario, accounts for it, returns the request log (None if it panicked) and the
+/// failure signature. A failure that the same scenario with one fault fewer (`parent`) already
+/// shows is attributed to that smaller scenario's group: the extra fault is not part of the cause.
+fn run_one(
+	acc: &mut Acc, scn: &Scenario, tree: &Arc<Tree>, parent: Option<&FailSig>,
+) -> (Option<Vec<Req>>, Option<FailSig>) {
+	acc.runs += 1;
+	*acc.per_family.entry(format!("{}/{}", scn.family, if scn.kind == Kind::Spv { "spv" } else { "init" })).or_insert(0) += 1;
+	match scn.faults.len() {
+		0 => acc.base_runs += 1,
+		1 => acc.fault_runs += 1,
+		_ => acc.pair_runs += 1,
+	}
+	let failure: Option<run::Failure>;
+	let mut in_init = scn.kind == Kind::Init;
+	let log;
+	match guarded_execute(scn, tree, false) {
+		Ok(out) => {
+			acc.steps += out.steps;
+			acc.notifications += out.notifications;
+			acc.requests += out.log.len() as u64 + out.quiet_requests;
+			for (f, _) in &out.fired {
+				acc.fired[f.class.index()] += 1;
+			}
+			for c in &out.refused {
+				acc.refused[c.index()] += 1;
+			}
+			acc.absorb_flags(&out.flags);
+			acc.states.extend(out.states.iter().copied());
+			if scn.faults.is_empty() && scn.family == "evict" && scn.kind == Kind::Spv {
+				if let TreeSpec::Fork { main, at, .. } = &scn.tree {
+					let last = out.log.iter().map(|r| r.step).max().unwrap_or(0);
+					let n = out
+						.log
+						.iter()
+						.filter(|r| r.step == last && r.kind == REQ_HEADER && r.node >= 0 && (r.node as usize) <= *main)
+						.count() as u64;
+					let e = acc.evict.entry(main - at).or_insert((0, 0));
+					e.0 += 1;
+					e.1 += n;
+				}
+			}
+			if scn.faults.is_empty() && scn.family == "batch" {
+				if out.log.iter().filter(|r| r.kind == REQ_BLOCK).count() > 36 {
+					acc.batch_multi += 1;
+				}
+			}
+			if out.failure.is_some() {
+				in_init = out.failure_in_init;
+			}
+			failure = out.failure;
+			log = Some(out.log);
+		},
+		Err(p) => {
+			failure = Some(("no-panic".to_string(), format!("panic inside the code under test: {}", p)));
+			log = None;
+		},
+	}
+	let mut sig = None;
+	if let Some(f) = failure {
+		acc.violating_runs += 1;
+		let what = format!("{}|{}", if in_init { "startup-sync" } else { "poll" }, f.0);
+		match parent {
+			Some(p) if p.what == what => {
+				if let Some(g) = acc.groups.get_mut(&p.key) {
+					g.3 += 1;
+				}
+				sig = Some(p.clone());
+			},
+			_ => {
+				let mut classes: Vec<&str> = scn.faults.iter().map(|f| f.class.name()).collect();
+				classes.sort();
+				let key = format!("{}|{}", what, if classes.is_empty() { "no-fault".to_string() } else { classes.join("+") });
+				acc.add_group(key.clone(), (scn.order_key(), scn.clone(), f, 1));
+				sig = Some(FailSig { key, what });
+			},
+		}
+	}
+	(log, sig)
+}
+
+fn fault_positions(log: &[Req], positions: Positions, main: Option<usize>) -> Vec<usize> {
+	match positions {
+		Positions::All => (0..log.len()).collect(),
+		Positions::Sparse => {
+			let mut keep = vec![false; log.len()];
+			for i in 0..log.len() {
+				let boundary = |j: usize| j >= log.len() || log[j].step != log[i].step || log[j].kind != log[i].kind;
+				// within 3 requests of a step / request-kind boundary
+				let near = (1..=3).any(|d| (i >= d && boundary(i - d)) || boundary(i + d)) || i < 3;
+				let miss = match main {
+					// header requests for main-chain blocks after the first poll = cache misses on the old chain
+					Some(m) => log[i].kind == REQ_HEADER && log[i].step > 1 && log[i].node >= 0 && (log[i].node as usize) <= m,
+					None => false,
+				};
+				keep[i] = near || miss;
+			}
+			(0..log.len()).filter(|i| keep[*i]).collect()
+		},
+	}
+}
+
+fn classes_for(req: &Req, tree: &Tree, scn: &Scenario, lies: bool) -> Vec<FaultClass> {
+	ALL_CLASSES
+		.iter()
+		.copied()
+		.filter(|c| (lies || !c.is_metadata_lie()) && c.applies(req.kind, req.node, tree, scn.mode, scn.mainnet))
+		.collect()
+}
+
+/// Base run plus a fault at every (selected) request, plus fault pairs if asked.
+fn run_with_faults(acc: &mut Acc, base: &Scenario, tree: &Arc<Tree>, item: &Item) {
+	let (log, sig0) = run_one(acc, base, tree, None);
+	let log = match log {
+		Some(l) => l,
+		None => return,
+	};
+	if acc.samples.len() < 2 && acc.runs % 97 == 1 {
+		if let Ok(out) = guarded_execute(base, tree, true) {
+			acc.samples.push(json!({"scenario": base.to_json(), "trace": out.trace}));
+		}
+	}
+	if !item.faults {
+		return;
+	}
+	let main = match &base.tree {
+		TreeSpec::Fork { main, .. } => Some(*main),
+		_ => None,
+	};
+	for k in fault_positions(&log, item.positions, main) {
+		for c in classes_for(&log[k], tree, base, item.lies) {
+			let mut s1 = base.clone();
+			s1.faults = vec![Fault { at: k, class: c }];
+			let (log1, sig1) = run_one(acc, &s1, tree, sig0.as_ref());
+			if acc.samples.len() < 4 && acc.runs % 89 == 1 {
+				if let Ok(out) = guarded_execute(&s1, tree, true) {
+					acc.samples.push(json!({"scenario": s1.to_json(), "trace": out.trace}));
+				}
+			}
+			if !item.pairs {
+				continue;
+			}
+			let log1 = match log1 {
+				Some(l) => l,
+				None => continue,
+			};
+			for k2 in (k + 1)..log1.len() {
+				for c2 in classes_for(&log1[k2], tree, base, item.lies) {
+					let mut s2 = base.clone();
+					s2.family = "pairs".to_string();
+					s2.faults = vec![Fault { at: k, class: c }, Fault { at: k2, class: c2 }];
+					run_one(acc, &s2, tree, sig1.as_ref());
+				}
+			}
+		}
+	}
+}
+
+fn process_item(item: &Item, deadline: Instant) -> Acc {
+	let mut acc = Acc::default();
+	let spec = item.tree.clone();
+	let tree = Arc::new(Tree::build(&spec));
+	let n = tree.n;
+	let mk = |starts: Vec<usize>, tips: Vec<usize>| Scenario {
+		family: item.family.to_string(),
+		kind: item.kind,
+		tree: spec.clone(),
+		mainnet: item.mainnet,
+		mode: item.mode,
+		via_init: item.via_init,
+		starts,
+		locator_prev: item.locator_prev,
+		forget_stale: item.forget_stale,
+		tips,
+		faults: Vec::new(),
+	};
+	let mut bases: Vec<Scenario> = Vec::new();
+	match &item.gen {
+		Gen::SpvTips { t } => {
+			let mut seqs: Vec<Vec<usize>> = vec![vec![]];
+			for _ in 0..*t {
+				let mut next = Vec::new();
+				for s in &seqs {
+					for x in 0..n {
+						let mut s2 = s.clone();
+						s2.push(x);
+						next.push(s2);
+					}
+				}
+				for s in &next {
+					bases.push(mk(vec![item.start], s.clone()));
+				}
+				seqs = next;
+			}
+		},
+		Gen::SpvFixed { tips } => bases.push(mk(vec![item.start], tips.clone())),
+		Gen::InitAll => {
+			for s2 in 0..n {
+				for b in 0..n {
+					bases.push(mk(vec![item.start, s2], vec![b]));
+				}
+			}
+		},
+		Gen::InitFixed { others, best } => {
+			for s2 in others {
+				bases.push(mk(vec![item.start, *s2], vec![*best]));
+			}
+		},
+	}
+	for (i, b) in bases.iter().enumerate() {
+		if Instant::now() >= deadline {
+			acc.incomplete_items += 1;
+			let _ = i;
+			break;
+		}
+		run_with_faults(&mut acc, b, &tree, item);
+	}
+	acc
+}
+
+fn tree_specs(max_blocks: usize) -> Vec<TreeSpec> {
+	let mut v = Vec::new();
+	for nodes in 1..=(max_blocks + 1) {
+		for p in rooted_trees(nodes) {
+			let h = vec![false; p.len()];
+			v.push(TreeSpec::Explicit { parents: p, heavy: h });
+		}
+	}
+	v
+}
+
+fn weighted_specs(max_blocks: usize) -> Vec<TreeSpec> {
+	let mut v = Vec::new();
+	for nodes in 2..=(max_blocks + 1) {
+		for p in rooted_trees(nodes) {
+			let k = p.len();
+			for mask in 1u32..(1 << k) {
+				let h: Vec<bool> = (0..k).map(|i| mask & (1 << i) != 0).collect();
+				v.push(TreeSpec::Explicit { parents: p.clone(), heavy: h });
+			}
+		}
+	}
+	v
+}
+
+struct Plan {
+	n: usize,
+	t: usize,
+	pairs_n: usize,
+	pairs_t: usize,
+	weights_n: usize,
+	weights_t: usize,
+	evict_depths: Vec<usize>,
+	evict_modes: Vec<SrcMode>,
+	evict_positions: Positions,
+	batch_lens: Vec<usize>,
+	modes: Vec<SrcMode>,
+	lies: bool,
+}
+
+fn build_items(plan: &Plan) -> Vec<Item> {
+	let mut items = Vec::new();
+	let proto = Item {
+		family: "trees",
+		tree: TreeSpec::Explicit { parents: vec![], heavy: vec![] },
+		kind: Kind::Spv,
+		mainnet: true,
+		mode: SrcMode::Full,
+		via_init: false,
+		start: 0,
+		locator_prev: true,
+		forget_stale: false,
+		gen: Gen::InitAll,
+		faults: true,
+		pairs: false,
+		lies: plan.lies,
+		positions: Positions::All,
+	};
+	// Family "trees": every rooted tree shape.
+	for spec in tree_specs(plan.n) {
+		let nodes = spec.blocks() + 1;
+		for &mode in &plan.modes {
+			for start in 0..nodes {
+				for via_init in [false, true] {
+					items.push(Item {
+						tree: spec.clone(),
+						mode,
+						via_init,
+						start,
+						gen: Gen::SpvTips { t: plan.t },
+						..proto.clone()
+					});
+				}
+				for locator_prev in [true, false] {
+					for forget_stale in [false, true] {
+						items.push(Item {
+							tree: spec.clone(),
+							kind: Kind::Init,
+							mode,
+							start,
+							locator_prev,
+							forget_stale,
+							gen: Gen::InitAll,
+							..proto.clone()
+						});
+					}
+				}
+			}
+		}
+		// Regtest rules (no difficulty checks): error-free runs only, the fault classes are the same code.
+		for start in 0..nodes {
+			for via_init in [false, true] {
+				items.push(Item {
+					tree: spec.clone(),
+					mainnet: false,
+					via_init,
+					start,
+					gen: Gen::SpvTips { t: plan.t },
+					faults: false,
+					..proto.clone()
+				});
+			}
+			items.push(Item { tree: spec.clone(), kind: Kind::Init, mainnet: false, start, faults: false, ..proto.clone() });
+		}
+		// Fault pairs on the small end of the space.
+		if plan.pairs_n > 0 && spec.blocks() <= plan.pairs_n {
+			for start in 0..nodes {
+				for via_init in [false, true] {
+					items.push(Item {
+						tree: spec.clone(),
+						via_init,
+						start,
+						gen: Gen::SpvTips { t: plan.pairs_t },
+						pairs: true,
+						..proto.clone()
+					});
+				}
+				items.push(Item { tree: spec.clone(), kind: Kind::Init, start, pairs: true, ..proto.clone() });
+			}
+		}
+	}
+	// Family "weights": blocks of different difficulty, so work and height disagree (regtest rules).
+	for spec in weighted_specs(plan.weights_n) {
+		let nodes = spec.blocks() + 1;
+		for start in 0..nodes {
+			for via_init in [false, true] {
+				items.push(Item {
+					family: "weights",
+					tree: spec.clone(),
+					mainnet: false,
+					via_init,
+					start,
+					gen: Gen::SpvTips { t: plan.weights_t },
+					..proto.clone()
+				});
+			}
+			items.push(Item { family: "weights", tree: spec.clone(), kind: Kind::Init, mainnet: false, start, ..proto.clone() });
+		}
+	}
+	// Family "evict": fork depth around HEADER_CACHE_LIMIT.
+	let main = LIMIT + 6;
+	for &d in &plan.evict_depths {
+		let spec = TreeSpec::Fork { main, at: main - d, len: d + 1 };
+		let fork_tip = main + d + 1;
+		for &mode in &plan.evict_modes {
+			for via_init in [false, true] {
+				items.push(Item {
+					family: "evict",
+					tree: spec.clone(),
+					mode,
+					via_init,
+					start: 0,
+					gen: Gen::SpvFixed { tips: vec![main, fork_tip] },
+					positions: plan.evict_positions,
+					..proto.clone()
+				});
+			}
+		}
+		// start-up sync of listeners on both sides of the eviction horizon
+		items.push(Item {
+			family: "evict",
+			tree: spec.clone(),
+			kind: Kind::Init,
+			start: main,
+			gen: Gen::InitFixed { others: vec![0, main - d, main - d + 1, main], best: fork_tip },
+			positions: Positions::Sparse,
+			..proto.clone()
+		});
+	}
+	// Family "batch": start-up sync across the 36-block fetch batches.
+	for &l in &plan.batch_lens {
+		let spec = TreeSpec::Fork { main: l, at: 1, len: 2 };
+		let cands = vec![0usize, 2, l + 2, l - 1];
+		for &s1 in &cands {
+			items.push(Item {
+				family: "batch",
+				tree: spec.clone(),
+				kind: Kind::Init,
+				start: s1,
+				gen: Gen::InitFixed { others: cands.clone(), best: l },
+				..proto.clone()
+			});
+		}
+	}
+	items
+}
+
+fn replay(path: &std::path::Path) -> ! {
+	let text = std::fs::read_to_string(path).unwrap_or_else(|e| cli::die(&format!("cannot read {}: {}", path.display(), e)));
+	let v: Value = mc_common::serde_json::from_str(&text).unwrap_or_else(|e| cli::die(&format!("replay file does not parse: {}", e)));
+	let r = v.get("replay").unwrap_or(&v);
+	let scn = Scenario::from_json(r).unwrap_or_else(|| cli::die("replay JSON is not a C20 scenario"));
+	let tree = Arc::new(Tree::build(&scn.tree));
+	println!("replaying {}", scn.short());
+	par::set_quiet(false);
+	match guarded_execute(&scn, &tree, true) {
+		Ok(out) => {
+			for l in &out.trace {
+				println!("  {}", l);
+			}
+			match out.failure {
+				Some((o, d)) => {
+					println!("VIOLATION property={} oracle={} : {}", PROP, o, d);
+					std::process::exit(1)
+				},
+				None => {
+					println!("no violation");
+					std::process::exit(0)
+				},
+			}
+		},
+		Err(p) => {
+			println!("VIOLATION property={} oracle=no-panic : {}", PROP, p);
+			std::process::exit(1)
+		},
+	}
+}
+
 fn main() {
-	let _args = mc_common::cli::parse();
-	mc_common::cli::die("engine not built yet");
+	let args = cli::parse();
+	if let Some(p) = &args.replay {
+		replay(p);
+	}
+	if args.property != PROP {
+		cli::die(&format!("mc-spv implements {} only", PROP));
+	}
+	par::install_quiet_panic_hook();
+	let thorough = args.tier == Tier::Thorough;
+	let all_modes = vec![SrcMode::Full, SrcMode::HeaderOnly, SrcMode::Mixed];
+	let mut plan = if thorough {
+		Plan {
+			n: 7,
+			t: 3,
+			pairs_n: 3,
+			pairs_t: 2,
+			weights_n: 5,
+			weights_t: 2,
+			evict_depths: vec![LIMIT - 1, LIMIT, LIMIT + 1, LIMIT + 3],
+			evict_modes: vec![SrcMode::Full, SrcMode::HeaderOnly],
+			evict_positions: Positions::All,
+			batch_lens: vec![35, 36, 37, 72, 73],
+			modes: all_modes,
+			lies: false,
+		}
+	} else {
+		Plan {
+			n: 5,
+			t: 2,
+			pairs_n: 0,
+			pairs_t: 0,
+			weights_n: 3,
+			weights_t: 2,
+			evict_depths: vec![LIMIT - 1, LIMIT, LIMIT + 1],
+			evict_modes: vec![SrcMode::Full],
+			evict_positions: Positions::Sparse,
+			batch_lens: vec![36, 37],
+			modes: all_modes,
+			lies: false,
+		}
+	};
+	if let Some(n) = args.opt_u64("n") {
+		plan.n = n as usize;
+	}
+	if let Some(t) = args.opt_u64("t") {
+		plan.t = t as usize;
+	}
+	if let Some(n) = args.opt_u64("pairs_n") {
+		plan.pairs_n = n as usize;
+	}
+	if let Some(n) = args.opt_u64("weights_n") {
+		plan.weights_n = n as usize;
+	}
+	plan.lies = args.opt_u64("lies").unwrap_or(0) != 0;
+	let cap_s = if args.wall_cap_s > 0 {
+		args.wall_cap_s
+	} else if thorough {
+		2400
+	} else {
+		50
+	};
+	let started = Instant::now();
+	let deadline = started + Duration::from_secs(cap_s);
+
+	let mut items = build_items(&plan);
+	// Largest work first so the tail of the parallel run is short; order of results is by index.
+	let weight = |it: &Item| -> u64 {
+		let n = it.tree.blocks() as u64 + 1;
+		let base = match &it.gen {
+			Gen::SpvTips { t } => (1..=*t as u32).map(|k| n.pow(k)).sum::<u64>(),
+			Gen::SpvFixed { .. } => 40,
+			Gen::InitAll => n * n,
+			Gen::InitFixed { others, .. } => others.len() as u64 * 4,
+		};
+		base * n * if it.faults { 60 } else { 1 } * if it.pairs { 60 } else { 1 }
+	};
+	items.sort_by_key(|it| std::cmp::Reverse(weight(it)));
+	let n_items = items.len();
+	let results = par::map(&items, args.threads, |_, it| process_item(it, deadline));
+
+	let mut acc = Acc::default();
+	let mut violations: Vec<Violation> = Vec::new();
+	for (i, r) in results.into_iter().enumerate() {
+		match r {
+			Ok(a) => acc.merge(a),
+			Err(p) => violations.push(Violation {
+				property: PROP.into(),
+				oracle: "harness-panic".into(),
+				identity: format!("harness-panic|{:?}", items[i]),
+				detail: format!("panic outside a guarded execution: {}", p),
+				replay: json!({"item": format!("{:?}", items[i])}),
+			}),
+		}
+	}
+	let capped = acc.incomplete_items > 0;
+	let wall = started.elapsed().as_secs_f64();
+
+	// Every reported violation must reproduce, twice, on a plain sequential run.
+	for (key, (_, scn, f, count)) in &acc.groups {
+		eprintln!("violation group {} x{}", key, count);
+		let tree = Arc::new(Tree::build(&scn.tree));
+		let mut same = 0;
+		for _ in 0..2 {
+			let again = match guarded_execute(scn, &tree, false) {
+				Ok(o) => o.failure,
+				Err(p) => Some(("no-panic".to_string(), format!("panic inside the code under test: {}", p))),
+			};
+			if again.as_ref().map(|a| &a.0) == Some(&f.0) {
+				same += 1;
+			}
+		}
+		if same != 2 {
+			cli::die(&format!("violation {} did not reproduce deterministically ({}): {}", key, same, scn.short()));
+		}
+		violations.push(Violation {
+			property: PROP.into(),
+			oracle: f.0.clone(),
+			identity: format!("{}|{}", f.0, scn.short()),
+			detail: format!("{} [{} violating executions in group {}; minimal: {}]", f.1, count, key, scn.short()),
+			replay: scn.to_json(),
+		});
+	}
+
+	let mut ev = Evidence::new(PROP, args.tier, args.seed, Level::ModelChecking);
+	ev.set("states", acc.states.len() as u64);
+	ev.set("transitions", acc.steps + acc.notifications);
+	ev.set("traces_validated_against_impl", acc.runs);
+	ev.set("executions", acc.runs);
+	ev.set("executions_error_free", acc.base_runs);
+	ev.set("executions_one_fault", acc.fault_runs);
+	ev.set("executions_two_faults", acc.pair_runs);
+	ev.set("polls_and_syncs", acc.steps);
+	ev.set("listener_notifications", acc.notifications);
+	ev.set("source_requests", acc.requests);
+	ev.set("work_items", n_items as u64);
+	ev.set("capped", capped);
+	ev.set("cap_s", cap_s);
+	ev.set("incomplete_work_items", acc.incomplete_items);
+	ev.set("violating_executions", acc.violating_runs);
+	ev.set("engine_wall_s", (wall * 100.0).round() / 100.0);
+	ev.set(
+		"bounds",
+		json!({
+			"tree_blocks_max": plan.n,
+			"tree_shapes": tree_specs(plan.n).len(),
+			"tips_per_run_max": plan.t,
+			"source_modes": plan.modes.iter().map(|m| m.name()).collect::<Vec<_>>(),
+			"listener_start": "every node; start-up sync: every ordered pair of nodes x every best tip",
+			"faults": "one fault at every source request of every run, every applicable class",
+			"fault_pairs": if plan.pairs_n > 0 { format!("trees <= {} blocks, <= {} tips", plan.pairs_n, plan.pairs_t) } else { "none".to_string() },
+			"weighted_trees_blocks_max": plan.weights_n,
+			"weighted_tree_count": weighted_specs(plan.weights_n).len(),
+			"evict_fork_depths": plan.evict_depths,
+			"evict_fault_positions": format!("{:?}", plan.evict_positions),
+			"header_cache_limit": LIMIT,
+			"batch_chain_lengths": plan.batch_lens,
+		}),
+	);
+	ev.set("executions_per_family", json!(acc.per_family));
+	ev.set("witnesses", json!(acc.flags));
+	let mut fc = serde_map();
+	for c in ALL_CLASSES {
+		fc.insert(c.name().to_string(), json!({"fired": acc.fired[c.index()], "refused": acc.refused[c.index()]}));
+	}
+	ev.set("fault_classes", Value::Object(fc));
+	ev.set(
+		"evict_family",
+		json!(acc
+			.evict
+			.iter()
+			.map(|(d, (runs, reqs))| json!({"fork_depth": d, "error_free_runs": runs, "old_chain_headers_fetched_from_source_in_reorg_poll": reqs}))
+			.collect::<Vec<_>>()),
+	);
+	ev.set("batch_runs_with_more_than_one_fetch_batch", acc.batch_multi);
+	for s in acc.samples.drain(..) {
+		ev.sample(s, 8);
+	}
+	ev.assume("SHA-256d / proof-of-work arithmetic of the bitcoin crate is correct (the harness mines with the same code the poller validates with)");
+	ev.assume("block sources answer synchronously (ready futures); concurrency between listeners and polls is not explored");
+	ev.assume("rooted trees are enumerated up to isomorphism (unordered children); block hashes are whatever the deterministic miner produces");
+	ev.assume("the `cache` component of a counted state is the harness's model of HeaderCache (the real cache is private); it is never an oracle input");
+	ev.assume("a metadata lie (height/chainwork) is judged only through its effect on the notifications; lies that change nothing are counted as harmless");
+
+	// Vacuity guards (only meaningful on a complete run of the default plan).
+	let mut guard_failures: Vec<String> = Vec::new();
+	if !capped && args.opts.iter().all(|(k, _)| k == "lies") {
+		let need = [
+			"reorg",
+			"tie",
+			"worse",
+			"extend",
+			"common",
+			"lower_height_reorg",
+			"ok_but_short",
+			"faulted_poll_err",
+			"left_at_fork_point",
+			"init_ok",
+			"init_disconnect",
+			"init_fallback",
+			"init_unresolvable",
+			"init_distinct_forks",
+			"init_down_sync",
+		];
+		for k in need {
+			if acc.flags.get(k).copied().unwrap_or(0) == 0 {
+				guard_failures.push(format!("vacuity guard: witness `{}` never observed", k));
+			}
+		}
+		for c in ALL_CLASSES {
+			if c.is_metadata_lie() && !plan.lies {
+				continue;
+			}
+			if acc.fired[c.index()] == 0 {
+				guard_failures.push(format!("vacuity guard: fault class {} never fired", c.name()));
+			}
+			if acc.refused[c.index()] == 0 {
+				guard_failures.push(format!("vacuity guard: fault class {} never observed to be refused", c.name()));
+			}
+		}
+		for d in &plan.evict_depths {
+			let (runs, reqs) = acc.evict.get(d).copied().unwrap_or((0, 0));
+			if runs == 0 {
+				guard_failures.push(format!("vacuity guard: eviction family depth {} not run", d));
+			}
+			if *d <= LIMIT && reqs != 0 {
+				guard_failures.push(format!("vacuity guard: fork depth {} <= cache limit but {} old-chain headers were fetched from the source", d, reqs));
+			}
+			if *d > LIMIT && reqs == 0 {
+				guard_failures.push(format!("vacuity guard: fork depth {} > cache limit but no old-chain header was fetched from the source (eviction not exercised)", d));
+			}
+		}
+		if acc.batch_multi == 0 {
+			guard_failures.push("vacuity guard: no start-up sync spanned more than one fetch batch".to_string());
+		}
+	}
+	eprintln!(
+		"C20 {}: {} executions ({} error-free, {} one-fault, {} two-fault), {} states, {} transitions, {} violating, capped={}, {:.1}s",
+		args.tier.name(),
+		acc.runs,
+		acc.base_runs,
+		acc.fault_runs,
+		acc.pair_runs,
+		acc.states.len(),
+		acc.steps + acc.notifications,
+		acc.violating_runs,
+		capped,
+		wall
+	);
+	// A vacuity guard that fails on a run without violations is a machinery error. When violations
+	// exist they take precedence (a broken subject can also starve the witnesses); the guard
+	// failures are then recorded and still fatal if every violation turns out to be a known finding.
+	if !guard_failures.is_empty() {
+		if violations.is_empty() {
+			cli::die(&guard_failures.join("; "));
+		}
+		ev.set("vacuity_guard_failures", json!(guard_failures));
+		for g in &guard_failures {
+			eprintln!("warning: {}", g);
+		}
+	}
+	let code = findings::conclude(PROP, &violations, &mut ev);
+	if code == 0 && !guard_failures.is_empty() {
+		cli::die(&guard_failures.join("; "));
+	}
+	std::process::exit(code);
+}
+
+fn serde_map() -> mc_common::serde_json::Map<String, Value> {
+	mc_common::serde_json::Map::new()
 }
